@@ -219,6 +219,8 @@ pub struct Params {
     pub knobs: std::collections::BTreeMap<String, i64>,
     /// which monitors to install
     pub monitors: Vec<String>,
+    /// targeted drops by frame content (requests to the network tap)
+    pub targeted: Vec<crate::world::Targeted>,
 }
 
 impl Params {
